@@ -29,11 +29,29 @@ func (s *lvlSet) Enabled(l zapcore.Level) bool { return s[uint8(l)] }
 type c05Enab struct {
 	set *lvlSet
 	al  *zap.AtomicLevel
+	// leveled: the user's enabler type also reports its lowest enabled level through a Level() method (what zap's
+	// LevelOf would find by asking) - which says nothing about the levels above it: the set need not be a threshold
+	leveled bool
+}
+
+// c05LeveledSet is a user-written LevelEnabler with a Level() method: an arbitrary set plus its floor.
+type c05LeveledSet struct{ *lvlSet }
+
+func (s c05LeveledSet) Level() zapcore.Level {
+	for l := zapcore.DebugLevel; l <= zapcore.FatalLevel; l++ {
+		if s.Enabled(l) {
+			return l
+		}
+	}
+	return zapcore.InvalidLevel
 }
 
 func (e c05Enab) enabler() zapcore.LevelEnabler {
 	if e.al != nil {
 		return *e.al
+	}
+	if e.leveled {
+		return c05LeveledSet{e.set}
 	}
 	return e.set
 }
@@ -75,7 +93,7 @@ func genC05Enab(t *rapid.T, atomics []*zap.AtomicLevel) c05Enab {
 		for l := -3; l <= 8; l++ {
 			s[uint8(int8(l))] = rapid.Bool().Draw(t, "bit")
 		}
-		return c05Enab{set: s}
+		return c05Enab{set: s, leveled: rapid.Bool().Draw(t, "enablerHasLevelMethod")}
 	case 4: // arbitrary over all 256 values
 		s := &lvlSet{}
 		bits := rapid.SliceOfN(rapid.Uint64(), 4, 4).Draw(t, "bits256")
